@@ -358,6 +358,7 @@ Outcome run_both(const Input &in, bool echo = false) {
 
 // ----------------------------------------------------------------------------------------------
 void run_C05(Ctx &cx) {
+  cx.ambient = true;
   std::vector<Base> bases = make_bases(cx, cx.thorough);
   cx.rep.count("genuine_files", (long long)bases.size());
   Sink sink = [&](Input &in) {
@@ -406,6 +407,7 @@ void run_C05(Ctx &cx) {
 }
 
 void run_C06(Ctx &cx) {
+  cx.ambient = true;
   std::vector<Base> bases = make_bases(cx, cx.thorough);
   cx.rep.count("genuine_files", (long long)bases.size());
   Sink sink = [&](Input &in) {
@@ -461,6 +463,7 @@ static void c11_oracle(Ctx &cx, const Input &in, const Outcome &o, const std::st
 }
 
 void run_C11(Ctx &cx) {
+  cx.ambient = true;
   std::vector<Base> bases = make_bases(cx, cx.thorough);
   Sink sink = [&](Input &in) {
     std::string desc = in_desc(in);
@@ -478,6 +481,7 @@ void run_C11(Ctx &cx) {
 }
 
 void run_C12(Ctx &cx) {
+  cx.ambient = true;
   std::vector<Base> bases = make_bases(cx, cx.thorough);
   Sink sink = [&](Input &in) {
     std::string desc = in_desc(in);
